@@ -65,10 +65,11 @@ def _bad(ctx, what, detail, feats):
 class PopState(object):
     """chi population model + the Leaf description that mirrors it"""
 
-    def __init__(self, rng, leaves, n_ids, reduced):
+    def __init__(self, rng, leaves, n_ids, reduced, nest=None):
         self.leaves = leaves
         self.n_ids = n_ids
-        self.model = GP.build_chi(leaves, n_ids)
+        self.nested = nest is not None
+        self.model = GP.build_chi(leaves, n_ids, nest=nest)
         self.reduced = reduced
         if reduced:
             self.model = chi.ReducedPopulationModel(self.model)
@@ -220,6 +221,7 @@ def pop_op(rng, st, op):
         st.fixed.difference_update(pick)
         return 'release(%d)' % len(pick)
     if op == 'set_population_parameters' and len(st.leaves) == 1 and \
+            not st.nested and \
             st.leaves[0].cov and not st.reduced and st.leaves[0].kind != 'H':
         l = st.leaves[0]
         npd = GP.n_per_dim(l, st.n_ids)
@@ -262,9 +264,11 @@ def _finish_hierarchical(ctx, rng, st, feats):
     n_top_free = h.n_top - len(st.fixed)
     objs = [hl]
     try:
-        prior = pints.ComposedLogPrior(*[
-            pints.GaussianLogPrior(0.3, 2.0) for _ in range(n_top_free)])
-        objs.append(chi.HierarchicalLogPosterior(hl, prior))
+        if n_top_free > 0:
+            prior = pints.ComposedLogPrior(*[
+                pints.GaussianLogPrior(0.3, 2.0)
+                for _ in range(n_top_free)])
+            objs.append(chi.HierarchicalLogPosterior(hl, prior))
     except Exception as e:      # noqa
         ctx.violation_exc('hierarchical_object_constructible', e,
                           {'ops': st.ops, 'leaves': feats['leaves'],
@@ -316,12 +320,13 @@ def _finish_hierarchical(ctx, rng, st, feats):
                   'ops': st.ops}, feats)
 
 
-def _pop_history(ctx, rng, leaves, n_ids, reduced, ops, tag):
+def _pop_history(ctx, rng, leaves, n_ids, reduced, ops, tag, nest=None):
     codes = [GP.leaf_code(l) for l in leaves]
     feats = {'leaves': codes, 'kinds': sorted(set(l.kind for l in leaves)),
-             'reduced': reduced, 'n_ids0': n_ids}
+             'reduced': reduced, 'n_ids0': n_ids,
+             'nested_wrappers': nest is not None}
     try:
-        st = PopState(rng, leaves, n_ids, reduced)
+        st = PopState(rng, leaves, n_ids, reduced, nest=nest)
     except Exception as e:      # noqa
         ctx.violation_exc('construction_raises', e, {'leaves': codes}, feats)
         return
@@ -352,11 +357,14 @@ def pop_random_case(ctx, rng, idx):
     reduced = rng.random() < 0.5
     ops = [POP_OPS[int(rng.integers(len(POP_OPS)))]
            for _ in range(int(rng.integers(1, 9)))]
+    # sub-models hidden behind wrappers (nested composites, reduced models)
+    nest = GP.random_nest(rng) if idx % 2 == 0 else None
     ctx.case(('+'.join(GP.leaf_code(l) for l in leaves), reduced,
-              tuple(ops)), True,
+              tuple(ops), nest is not None), True,
              sample={'leaves': [GP.leaf_code(l) for l in leaves],
-                     'n_ids': n_ids, 'reduced': reduced, 'ops': ops})
-    _pop_history(ctx, rng, leaves, n_ids, reduced, ops, 'random')
+                     'n_ids': n_ids, 'reduced': reduced, 'ops': ops,
+                     'nested_wrappers': nest is not None})
+    _pop_history(ctx, rng, leaves, n_ids, reduced, ops, 'random', nest=nest)
 
 
 _COMPS3 = GP.enumerate_compositions(3)
